@@ -54,7 +54,7 @@ func runC09(r *rt.Runner) {
 			c.Nontrivial([]byte("shadow|"+sn), func() string { return "font with a glyph named " + sn })
 		})
 	}
-	n := r.N(4000, 200000)
+	n := r.N(16000, 200000)
 	for k := 0; k < n; k++ {
 		r.Case("font", func(c *rt.C) {
 			rng := c.Rand()
